@@ -487,3 +487,93 @@ def replay_bool_check_node(task, failure):
     s.add(_z.Not(ze) if which == "is_true" else ze)
     r = s.check()
     return {"reproduced": r == _z.sat, "text": f"claripy.{which}({e}) = True; Z3: the expression is {'refuted' if which == 'is_true' else 'satisfied'} by {s.model() if r == _z.sat else 'no assignment'}"}
+
+
+def ob_concrete_truth_node(which, tier="quick"):
+    """BackendConcrete.is_true / is_false (real code, with the real Backend.is_true / is_false it inherits) on an ARBITRARY Boolean expression -
+    symbolic ones included, shape decided lazily (SymNode; `Bool` / `BV` in the module are the node classes, so `isinstance` tests and code
+    that inspects `.op` / `.args` / `.symbolic` before converting run as written).  convert() by contract: BackendError for an expression with
+    a variable, else the expression's value.  Post: True only if the expression holds / fails under EVERY assignment (ob_concrete_truth asks
+    about concrete expressions only)."""
+    from vf.engine import symnode as SN
+    from vf.contracts import simp
+
+    def body(c):
+        e = SN.new_node(("bool",), "root_e")
+        c.describers.append(lambda m: {"e": SN.describe(e, m)})
+        T, F = SN.new_node(("bool",), "lit_true", den=z3.BoolVal(True)), SN.new_node(("bool",), "lit_false", den=z3.BoolVal(False))
+
+        class NSClaripy:
+            true = staticmethod(lambda: T)
+            false = staticmethod(lambda: F)
+        ns = loader.load("claripy/backends/backend_concrete/backend_concrete.py", "claripy.backends.backend_concrete.backend_concrete",
+                         overrides={"claripy": NSClaripy, "Bool": SN.SymBoolN, "BV": SN.SymBV})
+        BC = ns["BackendConcrete"]
+
+        class HBC(BC):
+            def convert(self, x):
+                if isinstance(x, SN.SymNode):
+                    x = x.root()
+                    if bool(x.symbolic):
+                        raise BackendError("an expression with a variable has no concrete value")
+                    return SymBool(x.den) if isinstance(x, SN.SymBoolN) else x
+                return x
+        b = HBC()
+        try:
+            r = getattr(b, which)(e)
+        except (PathEnd, Undecided):
+            raise
+        except BackendError:
+            c.check(f"BackendConcrete.{which}[node]/backend-error", True)
+            return "be"
+        except Exception as ex:  # noqa
+            import traceback
+            c.fail(f"BackendConcrete.{which}[node]/raises", f"{type(ex).__name__}: {ex} {traceback.format_exc()[-300:]}", kind="raises")
+            return "raised"
+        rz = proxies.zbool(r) if isinstance(r, (bool, SymBool)) else None
+        if rz is None:
+            c.fail(f"BackendConcrete.{which}[node]/type", f"returned {type(r).__name__}")
+            return "type"
+        den = e.root().den
+        c.check(f"BackendConcrete.{which}[node]/sound", z3.Implies(rz, den if which == "is_true" else z3.Not(den)),
+                f"{which}() returned True although the expression does not {'hold' if which == 'is_true' else 'fail'} under every assignment")
+        return "ret"
+    t = {"kwargs": {"which": which}}
+    # stated bound: And / Or / Not nest at most two levels deep below the root (code that recurses through the connectives is followed that far)
+    return explore(body, simp._opts(8, tier, budget_s=200, max_arity=2, nested_arity=2, op_depth_bound={"And": 2, "Or": 2, "Not": 2, "If": 1},
+                                    replay=lambda f: replay_concrete_truth_node(t, f)))
+
+
+def replay_concrete_truth_node(task, failure):
+    """native: a small grammar of Boolean expressions over a symbolic atom and non-literal concretely-true / concretely-false operands (kept
+    unfolded by a non-eliminatable annotation) on the real claripy.backends.concrete; Z3 decides validity"""
+    import claripy
+    import z3 as _z
+    which = task["kwargs"]["which"]
+
+    class Keep(claripy.Annotation):
+        eliminatable = False
+        relocatable = False
+    b = claripy.BoolS("ctn_b", explicit_name=True)
+    t = claripy.BVV(1, 8).annotate(Keep()) == 1
+    f = claripy.BVV(1, 8).annotate(Keep()) == 2
+    atoms = [b, claripy.Not(b), t, f]
+    exprs = list(atoms)
+    for op in (claripy.And, claripy.Or):
+        for x in atoms:
+            for y in atoms:
+                exprs.append(op(x, y))
+    B = claripy.backends.z3
+    for e in exprs:
+        try:
+            ans = getattr(claripy.backends.concrete, which)(e)
+        except Exception:  # noqa
+            continue
+        if not ans:
+            continue
+        s = _z.Solver(ctx=B._context)
+        ze = B.convert(e)
+        s.add(_z.Not(ze) if which == "is_true" else ze)
+        if s.check() == _z.sat:
+            return {"reproduced": True, "text": f"claripy.backends.concrete.{which}({e}) = True; Z3: {'refuted' if which == 'is_true' else 'satisfied'} by {s.model()}"}
+    return {"reproduced": False, "text": "no native reproducer in the grammar"}
